@@ -379,7 +379,7 @@ func c03Stratify(c *core.Ctx) {
 				x /= 3
 			}
 			// n=3: skip graphs with self loops (covered for n<=2) to keep the space at 729
-			if n == 3 && (lab[0] != 0 || lab[4] != 0 || lab[8] != 0) {
+			if n == 3 && c.Tier != "thorough" && (lab[0] != 0 || lab[4] != 0 || lab[8] != 0) {
 				continue
 			}
 			for _, rev := range []bool{false, true} {
